@@ -12,6 +12,7 @@ import (
 	"github.com/hashicorp/nodeenrollment"
 	"github.com/hashicorp/nodeenrollment/types"
 	"google.golang.org/protobuf/proto"
+	"google.golang.org/protobuf/types/known/structpb"
 	"google.golang.org/protobuf/types/known/timestamppb"
 
 	"verifsim/kernel"
@@ -77,7 +78,7 @@ func (s *side) producer(r *kernel.Run) nodeenrollment.X25519KeyProducer {
 // blankID wraps a key producer and reports an empty key ID for the current and/or previous key: an application-level
 // producer without IDs, or a previous key persisted without its key ID.
 type blankID struct {
-	inner            nodeenrollment.X25519KeyProducer
+	inner               nodeenrollment.X25519KeyProducer
 	blankCur, blankPrev bool
 }
 
@@ -104,7 +105,10 @@ func sameEpochKey(a, b *epochKeys) bool {
 func randomMessage(r *kernel.Run) proto.Message {
 	tp := r.Tape
 	rb := func(n int) []byte { b := make([]byte, n); rand.Read(b); return b }
-	switch tp.Draw(7) {
+	switch tp.Draw(8) {
+	case 7:
+		// all-default content: marshals to zero bytes, the shortest valid ciphertext
+		return []proto.Message{&types.FetchNodeCredentialsResponse{}, &types.NodeCredentials{}, &structpb.Struct{}, &types.RotateNodeCredentialsResponse{}}[tp.Draw(4)]
 	case 0:
 		return &types.FetchNodeCredentialsRequest{Bundle: rb(tp.Range(1, 300)), BundleSignature: rb(64)}
 	case 1:
@@ -124,11 +128,11 @@ func randomMessage(r *kernel.Run) proto.Message {
 }
 
 type inflight struct {
-	ct       []byte
-	msg      proto.Message
-	from     *epochKeys
-	toNode   bool
-	sentAt   int
+	ct     []byte
+	msg    proto.Message
+	from   *epochKeys
+	toNode bool
+	sentAt int
 }
 
 // C11: encrypted messages are authenticated and bound to key and key ID.
